@@ -37,17 +37,17 @@ def _num_eq(a, b):
 
 def arr_diff(a, b):
     if type(a) is not type(b):
-        return 'type %s != %s' % (type(a).__name__, type(b).__name__)
+        return 'type differs: %s != %s' % (type(a).__name__, type(b).__name__)
     if a.dtype != b.dtype or a.shape != b.shape:
-        return 'array %s%s != %s%s' % (a.dtype, a.shape, b.dtype, b.shape)
+        return 'array dtype/shape differs: %s%s != %s%s' % (a.dtype, a.shape, b.dtype, b.shape)
     nan = a.dtype.kind in 'fc'
     if isinstance(a, np.ma.MaskedArray):
         ma, mb = np.ma.getmaskarray(a), np.ma.getmaskarray(b)
         if not np.array_equal(ma, mb):
-            return 'mask %s != %s' % (ma.tolist(), mb.tolist())
+            return 'mask differs: %s != %s' % (ma.tolist(), mb.tolist())
         if not np.array_equal(np.asarray(a.data)[~ma], np.asarray(b.data)[~mb], equal_nan=nan):
             return 'unmasked data differ'
-        return None if _num_eq(a.fill_value, b.fill_value) else 'fill_value %r != %r' % (a.fill_value, b.fill_value)
+        return None if _num_eq(a.fill_value, b.fill_value) else 'fill_value differs: %r != %r' % (a.fill_value, b.fill_value)
     return None if np.array_equal(a, b, equal_nan=nan) else 'array values differ: %s != %s' % (a.tolist(), b.tolist())
 
 
@@ -64,30 +64,40 @@ class Diff:
         self.flat, self.strict, self.ident, self.loose_tuples = flat, strict, ident, loose_tuples
         self.seen = {}
         self.a2b, self.b2a, self.keep = {}, {}, []
+        self.blame = None  # (class name, difference) of the innermost exportable instance that differs
+        self.leaf = None  # the difference itself, without the path leading to it
 
     def _identity(self, a, b):
         if self.ident is None or (self.ident == 'exportable' and not is_exportable(a)):
             return None
-        if isinstance(a, (tuple, frozenset)) and (not a or self.loose_tuples):
+        if isinstance(a, (tuple, frozenset)):  # immutable: whether two equal tuples are one object is not observable
             return None
         self.keep.append((a, b))
         ia, ib = id(a), id(b)
         if self.a2b.setdefault(ia, ib) != ib:
-            return 'one %s object referenced twice in the original came back as two objects' % type(a).__name__
+            return 'shared object duplicated: one %s object referenced twice in the original came back as two objects' % type(a).__name__
         if self.b2a.setdefault(ib, ia) != ia:
-            return 'two distinct %s objects of the original came back as one object' % type(a).__name__
+            return 'distinct objects merged: two distinct %s objects of the original came back as one object' % type(a).__name__
         return None
 
     def diff(self, a, b):
+        d = self._diff(a, b)
+        if d and self.leaf is None:
+            self.leaf = d
+        if d and self.blame is None and is_exportable(a):
+            self.blame = (type(a).__name__, d)
+        return d
+
+    def _diff(self, a, b):
         import tenpy.linalg.np_conserved as npc
         from tenpy.linalg.charges import LegCharge
         if isinstance(a, ATOMS):
             ka, kb = _kind(a), _kind(b)
             if ka is not None and ka == kb and (not self.strict or type(a) is type(b) or ka == 'b'):
-                return None if _num_eq(a, b) else '%r != %r' % (a, b)
+                return None if _num_eq(a, b) else 'value differs: %r != %r' % (a, b)
             if type(a) is not type(b) and not (isinstance(a, np.dtype) and isinstance(b, np.dtype)):
-                return 'type %s != %s (%r, %r)' % (type(a).__name__, type(b).__name__, a, b)
-            return None if _num_eq(a, b) else '%r != %r' % (a, b)
+                return 'type differs: %s != %s (%r, %r)' % (type(a).__name__, type(b).__name__, a, b)
+            return None if _num_eq(a, b) else 'value differs: %r != %r' % (a, b)
         d = self._identity(a, b)
         if d:
             return d
@@ -96,28 +106,28 @@ class Diff:
             return None
         self.seen[key] = (a, b)
         if isinstance(a, np.ndarray):
-            return arr_diff(a, b) if isinstance(b, np.ndarray) else 'type ndarray != %s' % type(b).__name__
+            return arr_diff(a, b) if isinstance(b, np.ndarray) else 'type differs: ndarray != %s' % type(b).__name__
         if isinstance(a, LegCharge):
-            return self._leg(a, b) if isinstance(b, LegCharge) else 'type %s != %s' % (type(a).__name__, type(b).__name__)
+            return self._leg(a, b) if isinstance(b, LegCharge) else 'type differs: %s != %s' % (type(a).__name__, type(b).__name__)
         if isinstance(a, npc.Array):
-            return self._array(a, b) if isinstance(b, npc.Array) else 'type Array != %s' % type(b).__name__
+            return self._array(a, b) if isinstance(b, npc.Array) else 'type differs: Array != %s' % type(b).__name__
         if type(a) is not type(b) and not (self.loose_tuples and isinstance(a, tuple) and isinstance(b, list)):
-            return 'type %s != %s' % (type(a).__name__, type(b).__name__)
+            return 'type differs: %s != %s' % (type(a).__name__, type(b).__name__)
         if isinstance(a, (list, tuple)) or type(a).__name__ == 'deque':
             if len(a) != len(b):
-                return 'len %d != %d' % (len(a), len(b))
+                return 'len differs: %d != %d' % (len(a), len(b))
             return self._items(zip(range(len(a)), a, b))
         if isinstance(a, (set, frozenset)):
-            return None if a == b else 'set %r != %r' % (a, b)
+            return None if a == b else 'set differs: %r != %r' % (a, b)
         if isinstance(a, dict):
             if len(a) != len(b):
-                return 'dict keys %s != %s' % (sorted(map(repr, a)), sorted(map(repr, b)))
+                return 'dict keys differ: %s != %s' % (sorted(map(repr, a)), sorted(map(repr, b)))
             for k in a:
                 if k not in b:
-                    return 'key %r missing' % (k,)
-                kb = next(x for x in b if x == k)
-                if type(kb) is not type(k):
-                    return 'key %r came back as %s' % (k, type(kb).__name__)
+                    return 'dict key missing: %r' % (k,)
+                d = self._diff(k, next(x for x in b if x == k)) if isinstance(k, ATOMS) else None
+                if d:
+                    return 'dict key changed: %r: %s' % (k, d)
             if getattr(a, 'default_factory', None) is not getattr(b, 'default_factory', None):
                 return 'default_factory differs'
             if type(a).__name__ == 'OrderedDict' and list(a) != list(b):
@@ -126,16 +136,16 @@ class Diff:
         if isinstance(a, np.random.Generator):
             return self.diff(a.bit_generator.state, b.bit_generator.state)
         if callable(a) or isinstance(a, type):
-            return None if a is b else 'global %r is not %r' % (a, b)
+            return None if a is b else 'global differs: %r is not %r' % (a, b)
         da, db = getattr(a, '__dict__', None), getattr(b, '__dict__', None)
         if da is None:
-            return None if a == b else '%r != %r' % (a, b)
+            return None if a == b else 'value differs: %r != %r' % (a, b)
         for k in sorted(da):
             if k not in db:
                 if k.startswith('_'):
                     continue
                 return '.%s: attribute lost' % k
-            if k.startswith('_') and db[k] is None:
+            if k.startswith('_') and (da[k] is None or db[k] is None):  # a cache, filled on one side only
                 continue
             d = self.diff(da[k], db[k])
             if d:
@@ -155,18 +165,18 @@ class Diff:
         if d:
             return 'chinfo: ' + d
         if a.qconj != b.qconj or a.ind_len != b.ind_len:
-            return 'qconj/ind_len %s/%s != %s/%s' % (a.qconj, a.ind_len, b.qconj, b.ind_len)
+            return 'qconj/ind_len differs: %s/%s != %s/%s' % (a.qconj, a.ind_len, b.qconj, b.ind_len)
         if self.flat:  # documented as lossy: only the charges of the indices survive
             return None if np.array_equal(a.to_qflat(), b.to_qflat()) else 'to_qflat() differs'
         if type(a) is not type(b):
-            return 'type %s != %s' % (type(a).__name__, type(b).__name__)
+            return 'type differs: %s != %s' % (type(a).__name__, type(b).__name__)
         if a.block_number != b.block_number or not np.array_equal(a.slices, b.slices) or not np.array_equal(a.charges, b.charges):
             return 'blocks differ: slices %s charges %s != slices %s charges %s' % (
                 a.slices.tolist(), a.charges.tolist(), b.slices.tolist(), b.charges.tolist())
         if b.slices.dtype != np.intp or b.charges.dtype != a.charges.dtype:
-            return 'dtype of slices/charges %s/%s' % (b.slices.dtype, b.charges.dtype)
+            return 'dtype of slices/charges differs: %s/%s' % (b.slices.dtype, b.charges.dtype)
         if bool(a.sorted) != bool(b.sorted) or bool(a.bunched) != bool(b.bunched):
-            return 'sorted/bunched %s/%s != %s/%s' % (a.sorted, a.bunched, b.sorted, b.bunched)
+            return 'sorted/bunched flags differ: %s/%s != %s/%s' % (a.sorted, a.bunched, b.sorted, b.bunched)
         if isinstance(a, LegPipe):
             if len(a.legs) != len(b.legs) or tuple(a.subshape) != tuple(b.subshape) or tuple(a.subqshape) != tuple(b.subqshape):
                 return 'pipe structure differs'
@@ -177,12 +187,12 @@ class Diff:
                 return 'q_map differs'
             for idx in np.ndindex(*a.subshape):  # same incoming indices -> same outgoing index
                 if a.map_incoming_flat(idx) != b.map_incoming_flat(idx):
-                    return 'map_incoming_flat%s differs' % (idx,)
+                    return 'map_incoming_flat differs: at %s' % (idx,)
         return None
 
     def _array(self, a, b):
         if a.rank != b.rank or a.shape != b.shape or a.dtype != b.dtype:
-            return 'rank/shape/dtype %s %s %s != %s %s %s' % (a.rank, a.shape, a.dtype, b.rank, b.shape, b.dtype)
+            return 'rank/shape/dtype differs: %s %s %s != %s %s %s' % (a.rank, a.shape, a.dtype, b.rank, b.shape, b.dtype)
         d = self.diff(a.chinfo, b.chinfo)
         if d:
             return 'chinfo: ' + d
@@ -190,11 +200,11 @@ class Diff:
         if d:
             return 'legs' + d
         if not np.array_equal(a.qtotal, b.qtotal):
-            return 'qtotal %s != %s' % (a.qtotal, b.qtotal)
+            return 'qtotal differs: %s != %s' % (a.qtotal, b.qtotal)
         if list(a.get_leg_labels()) != list(b.get_leg_labels()):
-            return 'labels %s != %s' % (a.get_leg_labels(), b.get_leg_labels())
+            return 'labels differ: %s != %s' % (a.get_leg_labels(), b.get_leg_labels())
         if a.stored_blocks != b.stored_blocks or bool(a._qdata_sorted) != bool(b._qdata_sorted):
-            return 'stored blocks %d (sorted %s) != %d (sorted %s)' % (a.stored_blocks, a._qdata_sorted, b.stored_blocks, b._qdata_sorted)
+            return 'stored blocks differ: %d (sorted %s) != %d (sorted %s)' % (a.stored_blocks, a._qdata_sorted, b.stored_blocks, b._qdata_sorted)
         if not np.array_equal(a.to_ndarray(), b.to_ndarray(), equal_nan=True):
             return 'dense entries differ'
         return None
